@@ -33,6 +33,10 @@ type wakeCase struct {
 	sched     string
 	prio      []int
 	changeAt  map[int]bool
+	// sleeper >= 0: that producer, once it has run sleepAfter steps, is not scheduled
+	// again until every other thread is blocked or finished (or sleepFor steps passed):
+	// a goroutine pre-empted for a long time in the middle of Trigger.
+	sleeper, sleepAfter, sleepFor int
 }
 
 func (c wakeCase) String() string {
@@ -53,7 +57,11 @@ func (c wakeCase) String() string {
 		pts = append(pts, k)
 	}
 	sort.Ints(pts)
-	return fmt.Sprintf("producers %s preload %d urgent + %d low, schedule %s prio %v change %v", strings.Join(ps, "|"), c.preUrgent, c.preLow, c.sched, c.prio, pts)
+	sl := ""
+	if c.sleeper >= 0 {
+		sl = fmt.Sprintf(", producer %d sleeps after %d steps (at most %d steps)", c.sleeper, c.sleepAfter, c.sleepFor)
+	}
+	return fmt.Sprintf("producers %s preload %d urgent + %d low, schedule %s prio %v change %v%s", strings.Join(ps, "|"), c.preUrgent, c.preLow, c.sched, c.prio, pts, sl)
 }
 
 type ran struct {
@@ -66,6 +74,8 @@ type ran struct {
 func runWake(c wakeCase, pick func(n int) int, st *vstat.Stats) string {
 	low := -1
 	prio := append([]int(nil), c.prio...)
+	chosen := map[int]int{}
+	myLast, slept := -1, 0
 	return runWakeWith(c, func(cands []int, last int, step int) int {
 		i := 0
 		if c.sched == "pct" {
@@ -80,7 +90,29 @@ func runWake(c wakeCase, pick func(n int) int, st *vstat.Stats) string {
 			}
 			return i
 		}
-		return pick(len(cands))
+		if c.sleeper < 0 {
+			return pick(len(cands))
+		}
+		// thread ids: 0 is the loop, producer k is k+1
+		sid := c.sleeper + 1
+		if last >= 0 && last != myLast {
+			chosen[last]++ // a sole candidate was run without asking
+		}
+		awake := make([]int, 0, len(cands))
+		for j, cd := range cands {
+			if cd == sid && chosen[sid] == c.sleepAfter && slept < c.sleepFor {
+				slept++
+				continue
+			}
+			awake = append(awake, j)
+		}
+		i = awake[0]
+		if len(awake) > 1 {
+			i = awake[pick(len(awake))]
+		}
+		chosen[cands[i]]++
+		myLast = cands[i]
+		return i
 	}, st)
 }
 
@@ -94,6 +126,9 @@ func runWakeWith(c wakeCase, choose3 func(cands []int, last int, step int) int, 
 	s := vsched.New()
 	defer s.Close()
 	s.FairAfter = 64 // the loop legitimately spins while a producer sits between linking its node and publishing the length
+	if c.sleeper >= 0 {
+		s.FairAfter = 0 // the sleeper's bound (sleepFor) limits the spinning instead
+	}
 
 	var log []ran
 	type issued struct {
@@ -189,6 +224,12 @@ func runWakeWith(c wakeCase, choose3 func(cands []int, last int, step int) int, 
 	if c.preUrgent >= 1024 {
 		st.Label("urgent_threshold_crossed")
 	}
+	if c.sleeper >= 0 {
+		st.Label("producer_preempted_until_loop_parked")
+		if c.preUrgent >= 1024 {
+			st.Label("producer_preempted_until_loop_parked_with_urgent_threshold_crossed")
+		}
+	}
 	if st.WantSample(nt) {
 		st.Sample(nt, fmt.Sprintf("%s: %d steps, %d tasks ran, producers lost the wake-up CAS %d times", c, s.Steps, len(log), lostCAS))
 	}
@@ -259,9 +300,12 @@ func drawWakeCase(t *rapid.T) wakeCase {
 		}
 		c.producers = append(c.producers, tr)
 	}
+	c.sleeper = -1
 	switch rapid.IntRange(0, 19).Draw(t, "preload") {
 	case 0:
 		c.preUrgent, c.preLow = 1024, rapid.IntRange(250, 300).Draw(t, "preLow")
+	case 3:
+		c.preUrgent, c.preLow = rapid.IntRange(1020, 1030).Draw(t, "preUrgent"), rapid.IntRange(0, 3).Draw(t, "preLow")
 	case 1:
 		c.preUrgent = rapid.IntRange(1, 40).Draw(t, "preUrgent")
 	case 2:
@@ -277,6 +321,11 @@ func drawWakeCase(t *rapid.T) wakeCase {
 		}
 	} else {
 		c.sched = "walk"
+		if rapid.IntRange(0, 3).Draw(t, "sleeper") == 0 || (c.preUrgent >= 1000 && rapid.Bool().Draw(t, "sleeperAtThreshold")) {
+			c.sleeper = rapid.IntRange(0, np-1).Draw(t, "sleeperProducer")
+			c.sleepAfter = rapid.IntRange(1, 14).Draw(t, "sleepAfter")
+			c.sleepFor = 60000
+		}
 	}
 	return c
 }
@@ -319,6 +368,7 @@ func TestC03WakeExhaustive(t *testing.T) {
 				at[p[0]] = p[1]
 			}
 			c := cfg
+			c.sleeper = -1
 			c.sched = fmt.Sprintf("pre-emptions %v", pre)
 			step := 0
 			msg := runWakeEnum(c, at, &step, st)
